@@ -1,7 +1,7 @@
 (* Model of the starting-hand helpers of src/cards/two.rs. f32 is modelled exactly in doubled
    integers (every intermediate value is a multiple of 0.5 of small magnitude). *)
 From Coq Require Import String.
-From CKC Require Import Base.Prelude Model.Card Model.Hands.
+From CKC Require Import Base.Prelude Base.SortN Model.Card Model.Hands.
 From CKC Require Import Gen.Consts Gen.Enums.
 Open Scope N_scope.
 
